@@ -104,6 +104,7 @@ def handle : List String → String
   | ["cost", mode, _, _] => if costModes.contains mode then "cost" else "bad-op"
   | ["costf", mode, _, _, _, _] => if costModes.contains mode then "cost" else "bad-op"
   | "httpmap" :: rest => handleMap rest
+  | "httphdr" :: rest => handleHdr rest
   | ["zoo", _, _, _] => "zoo"      -- oracle-only stream (real provisioned server); nothing to model
   | _ => "bad-op"
 
